@@ -16,7 +16,7 @@ check('C32',
            'characters (named, decimal, hex, decimal with leading zero, upper-case hex with leading zeros) x 2 layouts, all other slots '
            'on a rotating default (thorough also: a depth-6 x width-6 caterpillar, a complete binary tree of depth 6, a complete 6-ary '
            'tree of depth 2); (C) for shapes with <= 3 nodes every combination of attribute set and slot values over a reduced alphabet '
-           '({v, empty, &lt;, &, <}: quick 3 values for <= 2 nodes and 2 for 3 nodes; thorough 5 and 4). Every document is parsed by '
+           '({v, empty, &lt;, &, <}: quick 3 values for <= 2 nodes and 2 for 3 nodes; thorough 5 and 3). Every document is parsed by '
            'XmlElement::Factory(istream&, docpath) with XmlElement::noextensions set and compared with the reference: tags, attribute '
            'maps (GetAttr, HasAttr, abegin..aend), text (GetVal), children in order (begin..end, GetChildCnt, GetParent); then find(path) '
            'first/all, find_child and find with an attribute filter are compared with an independent path evaluator, from every element, '
@@ -45,7 +45,7 @@ check('C32',
                    'leaks are outside the property (a throwing constructor leaks the partial tree by construction)'],
       parts=[dict(name='trees', harness='c32_xml', variant='san', crash_clause='returns-same-tree',
                   quick=dict(args=['part=trees', 'maxn=5', 'big=0', 'ralpha=3', 'ralpha3=2'], deadline=100),
-                  thorough=dict(args=['part=trees', 'maxn=7', 'big=1', 'ralpha=5', 'ralpha3=4'], deadline=840)),
+                  thorough=dict(args=['part=trees', 'maxn=7', 'big=1', 'ralpha=5', 'ralpha3=3'], deadline=840)),
              dict(name='bytes', harness='c32_xml', variant='san', crash_clause='memory-safe-and-total',
                   quick=dict(args=['part=bytes', 'maxlen=6', 'seeds=3', 'subst=0'], deadline=100),
                   thorough=dict(args=['part=bytes', 'maxlen=7', 'ltlen=8', 'seeds=4', 'subst=1'], deadline=840))])
